@@ -264,7 +264,7 @@ func F6(o Opts, emit func(string, *ex.E) bool) bool {
 		{ex.SIdx(ex.Var("zero"))},
 		{ex.SAttr("b"), ex.SIdx(ex.Var("zero"))},
 	}
-	srcs := append(atoms(o), ex.Tuple(ex.Var("o"), ex.Var("o")), ex.Tuple(), ex.Attr(ex.Var("oo"), "l"), ex.Tuple(ex.Var("ln"), ex.Var("ln")))
+	srcs := append(atoms(o), ex.Tuple(ex.Var("o"), ex.Var("o")), ex.Tuple(), ex.Attr(ex.Var("oo"), "l"), ex.Tuple(ex.Var("ln"), ex.Var("ln")), ex.Var("leo"), ex.Var("seo"), ex.Var("let"))
 	for _, full := range []bool{false, true} {
 		for _, s := range srcs {
 			for _, tr := range trails {
